@@ -247,8 +247,6 @@ def occ_oracle(cfg, out):
                 return "cell_veto in-states %r" % (t["cell_veto"],), k
             veto = [tuple(i) for _, _, ids in s["veto_targets"] for i in ids]
             fams.append(("cell-veto", veto))
-            if Counter(veto) != Counter(bounding):
-                return "cell-veto targets %r != cell-bounding targets %r" % (sorted(veto), sorted(bounding)), k
         for fname, far in fams:
             union = Counter(far) + Counter(nearby) + Counter(surplus)
             if union != others:
@@ -256,6 +254,8 @@ def occ_oracle(cfg, out):
                 twice = sorted((union - others).elements())
                 return ("%s + nearby + surplus targets do not partition the other relevant units: missed %r, "
                         "treated twice %r" % (fname, missed, twice)), k
+        if len(fams) == 2 and Counter(fams[0][1]) != Counter(fams[1][1]):
+            return "cell-veto targets %r != cell-bounding targets %r" % (sorted(fams[1][1]), sorted(fams[0][1])), k
     return None
 
 
@@ -496,12 +496,20 @@ def fm_oracle(job, out):
     instantiations, each exactly once; the tagger's output is their duplicate-free union."""
     if "exc" in out:
         return "driver failure: %s %s" % (out["exc"], out.get("tb", "")[-300:])
+    shipped = job.get("gen_kind", "").startswith("shipped:")
+    n, nroot = job["n"], job["nroot"]
     try:
         parsed = strict_parse(job["text"])
-    except TranslatorError:
+    except TranslatorError as e:
+        if shipped:
+            return "shipped factor-set file %s is not a well-formed factor file: %s" % (job["gen_kind"][8:], e)
         return None         # outside the property's domain (malformed); the model correspondence still applies
-    n, nroot = job["n"], job["nroot"]
     if not py_wf(parsed, n):
+        if shipped:
+            # a shipped file must be well-formed: show the consequence on the real parser
+            m = shipped_file_search(job, out, (None, job["gen_kind"][8:], job["text"], parsed, n))
+            return m or ("shipped factor-set file %s is not well-formed (index out of range, repeated index, "
+                         "mixed locality or repeated index set)" % job["gen_kind"][8:])
         return None
     if out["load"][0] != "OK":
         return "well-formed file rejected by the parser: %s" % out["load"][1]
